@@ -153,6 +153,8 @@ type nafTab struct {
 	maxVars int
 	phiIdx  [2]int // positions of pos and carry among the instructions of the head
 	probing bool
+	vbad    int // violations of the value invariant (all, not only the reported ones)
+	rbad    int // violations of the structural clauses
 }
 
 // nafChunks is the number of position ranges each width is split into; the
@@ -171,10 +173,12 @@ func (c *checker) recodeNAF(rc *recodeCtx) {
 	}
 	var tasks []*task
 	for wd := 2; wd <= 8; wd++ {
-		// at least one leaf per (pos, carry) for each of the two per-leaf
-		// clauses, plus the exit and the termination clause
-		c.plan(c.value, 512)
-		c.plan(c.rng, 512+2)
+		// at least two leaves (even window, odd window) per (pos, carry) for
+		// each of the two per-leaf clauses, plus the exit and the termination
+		// clause; the exact number of leaves depends on the shape of the
+		// decision tree and is reported in the evidence
+		c.plan(c.value, 1024)
+		c.plan(c.rng, 1024+2)
 		if fn == nil || len(fn.Blocks) == 0 {
 			name := fmt.Sprintf("%s.(*Scalar).NonAdjacentForm(w=%d)", scalarRel, wd)
 			c.fail(c.value, "-", name, "anchor function (*Scalar).NonAdjacentForm cannot be resolved")
@@ -361,28 +365,36 @@ func (c *checker) nafReport(fn *ssa.Function, wd int, name string, tabs []*nafTa
 	pos := c.p.Pos(fn.Pos())
 	t := tabs[0]
 	w := t.w
-	leaves, runs, maxVars := 0, 0, 0
+	leaves, runs, maxVars, vbad, rbad := 0, 0, 0, 0, 0
 	var vmsgs, rmsgs []string
 	trans := map[nafState]map[nafState]bool{}
 	for _, tb := range tabs {
 		leaves += tb.leaves
 		runs += tb.runs
 		maxVars = max(maxVars, tb.maxVars)
+		vbad += tb.vbad
+		rbad += tb.rbad
 		vmsgs = append(vmsgs, tb.vmsgs...)
 		rmsgs = append(rmsgs, tb.rmsgs...)
 		for k, v := range tb.trans {
 			trans[k] = v
 		}
 	}
+	// one obligation per leaf and clause; the leaves without a violation are
+	// discharged also when others fail (a leaf can have several violations)
 	if len(vmsgs) == 0 {
 		c.okn(c.value, name+": iteration invariant", leaves)
 	} else {
+		c.okn(c.value, name+": iteration invariant", max(leaves-vbad, 0))
 		c.conclude(c.value, pos, name+": iteration invariant", vmsgs)
+		c.res.Obligations += min(vbad, leaves) - 1
 	}
 	if len(rmsgs) == 0 {
 		c.okn(c.rng, name+": digits and steps", leaves)
 	} else {
+		c.okn(c.rng, name+": digits and steps", max(leaves-rbad, 0))
 		c.conclude(c.rng, pos, name+": digits and steps", rmsgs)
+		c.res.Obligations += min(rbad, leaves) - 1
 	}
 
 	// exit: from the head with pos >= 256 the function returns the digit array
@@ -465,6 +477,11 @@ func (t *nafTab) run(st nafState, assign map[int]int8) *Outcome {
 }
 
 func (t *nafTab) bad(list *[]string, st nafState, assign map[int]int8, format string, args ...any) {
+	if list == &t.vmsgs {
+		t.vbad++
+	} else {
+		t.rbad++
+	}
 	if len(*list) >= 3 {
 		return
 	}
